@@ -190,7 +190,8 @@ Section SortFacts.
   Proof.
     intros H x Hx. assert (Hne : l <> []) by (intro E0; subst; contradiction).
     pose proof (app_removelast_last [] Hne) as E.
-    remember (last l []) as lw eqn:Elw. remember (removelast l) as rw eqn:Erw. clear Elw Erw.
+    remember (last l []) as lw eqn:Elw in *. remember (removelast l) as rw eqn:Erw in *.
+    clear Elw Erw.
     subst l. apply in_app_or in Hx. destruct Hx as [Hx|[<-|[]]]; [|lia].
     eapply sorted_app; [exact H | exact Hx | now left].
   Qed.
